@@ -167,9 +167,9 @@ type vfConcTarget struct {
 	searchMeta func() ([]uint32, error)
 	// searchAgg: the plain search with another score aggregation (same id set)
 	searchAgg func(q []float32, agg string) ([]uint32, error)
-	flush      func() error
-	write      func() error
-	exact      bool // a k=all search must contain every document that is visible
+	flush     func() error
+	write     func() error
+	exact     bool // a k=all search must contain every document that is visible
 	// resident reports the ids the index physically holds (nil where there is no accessor): used at
 	// quiescence for the approximate kind, whose searches cannot prove that nothing was lost
 	resident func() map[uint32]bool
@@ -460,7 +460,7 @@ func vfC11RunCase(c vfC11Case, ctx *vfCtx) *vfViolation {
 	// directed schedule (store): park the first writer between choosing the memtable and writing
 	var parked chan struct{}
 	var releaseWriter chan struct{}
-	var parkOnce sync.Once
+	var parkOnce atomic.Bool // only the FIRST arrival parks; later arrivals pass (sync.Once would block them until the first returns)
 	if c.Directed && t.store != nil {
 		parked, releaseWriter = make(chan struct{}), make(chan struct{})
 		at := c.DirectedAt
@@ -469,10 +469,10 @@ func vfC11RunCase(c vfC11Case, ctx *vfCtx) *vfViolation {
 		}
 		vfInstallHook(func(name string, args ...any) {
 			if name == at {
-				parkOnce.Do(func() {
+				if parkOnce.CompareAndSwap(false, true) {
 					close(parked)
 					<-releaseWriter
-				})
+				}
 			}
 		})
 		defer vfInstallHook(nil)
@@ -960,13 +960,13 @@ func vfC11StoreClose(c *vfC11Case, ctx *vfCtx, dir string, raceBefore int64) *vf
 			}
 		}
 		parked, releaseWorker = make(chan struct{}), make(chan struct{})
-		var once sync.Once
+		var once atomic.Bool // only the FIRST arrival parks; later arrivals pass (sync.Once would block them until the first returns)
 		vfInstallHook(func(name string, args ...any) {
 			if name == "compact:written" {
-				once.Do(func() {
+				if once.CompareAndSwap(false, true) {
 					close(parked)
 					<-releaseWorker
-				})
+				}
 			}
 		})
 		defer vfInstallHook(nil)
